@@ -423,6 +423,37 @@ class NpShim(object):
         return sym.arrfn_atom("sort", a, (), kinds)
 
     @staticmethod
+    def searchsorted(a, v, side="left", **k):
+        """np.searchsorted(np.sort(x), v): the number of elements of x below (side='left') / at or below (side='right') v.
+        Assumed contract, valid because `a` is known to be the ascending rearrangement of a finite, NaN-free array x."""
+        if not any_sym((a, v)):
+            return _np.searchsorted(a, v, side=side, **k)
+        use("np.searchsorted")
+        src = None
+        for at in CTX.atoms:
+            if at.kind == "afn:sort" and at.const is a:
+                src = at
+        if src is None or not isinstance(v, SArr):
+            raise Unsupported("np.searchsorted on an array that is not a known np.sort(...) result")
+        (ssel, sget), = src.fn
+        ax = src.axes[0]
+        vg = v._snapshot()
+        memo = {}
+
+        def get(idx):
+            key = tuple(i.get_id() for i in idx)
+            if key not in memo:
+                x = sym._elem_num(vg(idx))
+
+                def cond(j):
+                    e = sym._elem_num(sget(j))
+                    c = (e <= x).z if side == "right" else (e < x).z
+                    return And(ssel(j) if ssel else True, c)
+                memo[key] = sym.count_atom((ax,), cond)
+            return memo[key]
+        return SArr(v.axes, get, "int", v.sel, None, flat=v.flat)
+
+    @staticmethod
     def isclose(a, b, **k):
         if not any_sym((a, b)):
             return _np.isclose(a, b, **k)
